@@ -5,6 +5,42 @@ HERE = os.path.dirname(os.path.dirname(os.path.abspath(__file__)))
 PROPS = [json.loads(l)["id"] for l in open(os.path.join(HERE, "properties.jsonl"))]
 
 CHECKS = {
+ "C03": dict(
+   category="model_checking",
+   text="MC_Deps: TLC runs the forward scan with kill (shaped like find_depending) on every kernel <= 3 instructions over an abstract op alphabet "
+        "(roles, hidden flags, zero idiom, default-rule form, write-back load) and checks scanned edges = declarative RAW relation (Deps.tla). "
+        "The enumerated kernels are rendered through synthetic ISA databases for both ISAs and analysed by the real KernelDG; random kernels <= 12 lines over random "
+        "role tables and a curated real vocabulary on shipped models follow; every observed graph (one and two iterations, weights) is validated by TLC (Trace_Deps).",
+   design_ref="5/C03", technique="TLA+ scan state machine vs declarative RAW (TLC exhaustive) + replay of enumerated kernels + TLC trace validation of observed graphs",
+   note="Trusts the by-construction abstraction of generated instructions (role tables in harness/deps_common.py, vocab.py; self-checked against the TLA+ op table) and the projection of dg edges."),
+ "C04": dict(
+   category="model_checking",
+   text="MC_CritPath: relaxation in line order + chain pick on every graph with <= 4 instructions, zero latencies, load stages and ties equals the declarative longest chain, itself cross-checked "
+        "against brute-force chain enumeration. Every enumerated graph is rendered as a kernel with exactly that dependency graph and analysed by the real code; random kernels, the MC_Deps kernels and all "
+        "shipped example/test kernels on shipped models follow; TLC validates value in CPAllowed, marked lines form a chain, cells sum to the total.",
+   design_ref="5/C04", technique="TLA+ longest-chain spec (TLC exhaustive on small graphs) + replay of all enumerated graphs + TLC trace validation",
+   note="Where the statement is open (exec latency of a last instruction with separately modelled load stage) both readings are admitted."),
+ "C05": dict(
+   category="model_checking",
+   text="MC_LoopDeps: path-extension search with de-duplication over two concatenated iterations (shaped like check_for_loopcarried_dep) equals the declarative winding-number-1 cycles on every kernel "
+        "<= 3 instructions; the enumerated kernels, random kernels <= 10 lines (also located beyond line 1000) and shipped kernels are analysed by the real code and TLC validates the reported LCD set, "
+        "latencies, uniqueness, periodicity of the doubled graph and the summary maximum.",
+   design_ref="5/C05", technique="TLA+ cycle spec + path-search state machine (TLC exhaustive) + TLC trace validation of reported LCDs",
+   note="LCD column marks of the text report are covered by C13; here get_loopcarried_dependencies() and the summary value are observed."),
+ "C06": dict(
+   category="model_checking",
+   text="MC_MemDeps: every program store;<=2 pointer ops;load over add/sub, copy, clobber, post-index, later stores and displacements {-8,0,8,16}: the register-change bookkeeping (Level B) links exactly "
+        "when Deps.tla's symbolic addresses are provably equal; all enumerated programs are rendered for both ISAs (real mnemonics on shipped models, made-up mnemonics on synthetic ISA DBs) and analysed by "
+        "KernelDG; random longer programs with index registers, scales, pre/post-indexed accesses on every shipped model; TLC validates MustEdges <= observed <= MayEdges and the forwarding weight.",
+   design_ref="5/C06", technique="TLA+ symbolic-address spec + bookkeeping state machine (TLC exhaustive) + replay of all enumerated programs + TLC trace validation",
+   note="Unknown (clobbered) addresses admit either outcome; aliasing between different register names is not claimed."),
+ "C14": dict(
+   category="model_checking",
+   text="MC_LoopDeps invariant RotationInvariant (declarative cycles of every rotation, mapped back, equal the original's) on all kernels <= 3 instructions; on the real code generated kernels and every shipped "
+        "kernel are analysed at offset 0 and at rotation offsets (all offsets in thorough) and TLC validates that the rotated LCD set mapped back (members, latencies) and the LCD figure equal what it computes "
+        "from the unrotated observed graph.",
+   design_ref="5/C14", technique="TLA+ rotation theorem checked by TLC + metamorphic runs of the real code validated by TLC",
+   note="Rotation is performed on the selected kernel lines (labels/directives move with the lines)."),
  "C12": dict(
    category="model_checking",
    text="TLC enumerates every ordered pair of register names of both ISAs (MC_RegAlias: equivalence relation, family sizes), "
